@@ -1,6 +1,6 @@
 SPECIFICATION FairSpec
 CONSTANTS
-  Node = {"n1", "n2", "n3"}
+  Node = {"n1", "n2"}
   Byz = {}
   T10 = 670
   MaxHeight = 1
